@@ -308,6 +308,11 @@ func (p *ParserZH) getPeekIndent() int {
 	return p.BlockIndents(peekLine)
 }
 
+// peekOnCurrentLine - the next token stands on the physical line the last consumed token ends on
+func (p *ParserZH) peekOnCurrentLine() bool {
+	return p.current() != nil && p.StartLineIdxP2 == p.EndLineIdxP1
+}
+
 // getCurrIndent -
 func (p *ParserZH) getCurrIndent() int {
 	var currLine = p.StartLineIdxP1
